@@ -147,8 +147,27 @@ pub fn gen_img(r: &mut Rng, entry_code: &[u8], max_segs: u64) -> ImgSpec {
             }
         }
     }
+    // PT_TLS: the loader expects the thread-local image at the start of an area an *earlier* PT_LOAD
+    // created, and sets FS behind it; at most one, on a page-aligned segment of any flags
+    let mut tls_of: Option<(usize, usize)> = None; // (extra index, segment index)
+    if r.chance(1, 5) {
+        let cands: Vec<usize> = (0..segs.len()).filter(|i| segs[*i].vaddr & 0xfff == 0 && segs[*i].memsz >= 1).collect();
+        if !cands.is_empty() {
+            let i = *r.pick(&cands);
+            let len = r.range(1, segs[i].memsz);
+            extras.push(ExtraPh { p_type: 7, flags: 4, inside: Some(i), off: 0, len });
+            tls_of = Some((extras.len() - 1, i));
+        }
+    }
     let mut ph_order: Vec<usize> = (0..segs.len() + extras.len()).collect();
     r.shuffle(&mut ph_order);
+    if let Some((e, i)) = tls_of {
+        let pe = ph_order.iter().position(|x| *x == segs.len() + e).unwrap();
+        let pi = ph_order.iter().position(|x| *x == i).unwrap();
+        if pe < pi {
+            ph_order.swap(pe, pi);
+        }
+    }
     let mut file_order: Vec<usize> = (0..segs.len()).collect();
     r.shuffle(&mut file_order);
     let sections = r.chance(2, 3);
